@@ -305,6 +305,14 @@ def run(tier, rep):
         traces.append(session(pa, rng, 25 if quick else 35))
     for i in range(0, len(traces), 150):
         part = traces[i:i + 150]
+        for tr in list(part):
+            bad = contmodel.observation_problems(tr)
+            if bad:
+                rep.violation(f"session.observe_raises.{tr[bad[0]]['op']}.{tr[bad[0]].get('kind', '')}", {
+                    "event_index": bad[0], "problems": bad[1], "session_calls": [x.get("kind", x["op"]) for x in tr[:bad[0] + 1]]})
+                part.remove(tr)
+        if not part:
+            continue
         res, verdicts = contmodel.validate(part, 5, label="TraceContinuum sessions", workers=16)
         rep.add_tlc(res)
         firsts = {}
